@@ -3,7 +3,6 @@ package mount
 
 import (
 	"io"
-	"path"
 	"strings"
 	"sync"
 
@@ -56,9 +55,8 @@ func (fs *FS) addMount(p string, mountFS hackpadfs.FS) error {
 	fs.mountMu.Lock()
 	defer fs.mountMu.Unlock()
 
-	dir, base := path.Split(p)
-	parentFS, subPath := fs.Mount(dir) // get this mount point's parent mount, verify dir exists
-	f, err := parentFS.Open(path.Join(subPath, base))
+	parentFS, subPath := fs.Mount(p) // p is not a mount point: this is its parent mount, verify the directory exists there
+	f, err := parentFS.Open(subPath)
 	if err != nil {
 		return err
 	}
